@@ -3,6 +3,7 @@ package erpc
 import (
 	"io"
 	"net"
+	"time"
 
 	"github.com/henrylee2cn/erpc/v6/socket"
 )
@@ -238,9 +239,9 @@ func VX_C02_FastReply(args []int) {
 
 // VX_C03_HookPanic: a plugin hook panics while a CALL is being handled; a
 // fence CALL follows. Each CALL gets exactly one REPLY while the connection
-// stays up. args: stage(0 PostReadCallHeader,1 PreReadCallBody,2 PostReadCallBody,3 PreWriteReply,4 PostWriteReply)
+// stays up. args: stage(0 PostReadCallHeader,1 PreReadCallBody,2 PostReadCallBody,3 PreWriteReply,4 PostWriteReply,5 the handler)[, contextAge(0 none, 1 one minute)]
 func VX_C03_HookPanic(args []int) {
-	stages := []string{"PostReadCallHeader", "PreReadCallBody", "PostReadCallBody", "PreWriteReply", "PostWriteReply"}
+	stages := []string{"PostReadCallHeader", "PreReadCallBody", "PostReadCallBody", "PreWriteReply", "PostWriteReply", "handler"}
 	stage := stages[args[0]]
 	var log []string
 	pl := newVxPlugin("rec", &log)
@@ -253,10 +254,23 @@ func VX_C03_HookPanic(args []int) {
 	}
 	p := vxNewPeer(pl)
 	route := &vxRoute{name: "m"}
+	if args[0] == 5 { // the handler itself panics (first invocation)
+		stage = "handler"
+		route.fn = func(ctx *handlerCtx, arg []byte) (interface{}, *Status) {
+			if !fired {
+				fired = true
+				panic("handler panics")
+			}
+			return arg, nil
+		}
+	}
 	vxRouteCall(p, route)
 	conn := newVxConn("srv:1", "cli:2")
 	s, st := p.ServeConn(conn)
 	vxAssume(st.OK())
+	if len(args) > 1 && args[1] == 1 {
+		s.(*session).SetContextAge(time.Minute) // handlers get a context with a deadline
+	}
 	conn.feed(vxFrame(TypeCall, 1, "/m", []byte("one")))
 	vxWaitIdle()
 	conn.feed(vxFrame(TypeCall, 2, "/m", []byte("two")))
